@@ -208,6 +208,16 @@ pub fn run(ctx: &Arc<Ctx>) {
     for _ in 0..64 {
         cases.push(Case::FromHash { ha: hex::encode(g.bytes(40)), tag: "seeded".into() });
     }
+    for id_len in [8191usize, 8192, 9000, 65535, 65536, 70000] {
+        for hid in [1u8, 2, 3] {
+            cases.push(Case::H1 { id_len, id_class: "seed".into(), hid });
+        }
+    }
+    for kind in ["sign", "enc", "exch"] {
+        for il in [8191usize, 8192, 65536] {
+            cases.push(Case::Extract { k: "000130E78459D78545CB54C587E02CF480CE0B66340F319F348A1D5B1F2DC5F4".into(), id: format!("len:{}", il), kind: kind.into(), tag: "id-of-8191-bytes-and-more".into() });
+        }
+    }
     for id_len in 0..=ctx.tier.pick(300usize, 2100) {
         for hid in [1u8, 2, 3] {
             for cl in ["zero", "seed"] {
